@@ -211,6 +211,24 @@ CHECK_DEADLOCK FALSE
 """, quick={"MaxOps": 4}, thorough={"MaxOps": 5}, timeout=6000)
 
 
+def sender_tv_stage(ctx):
+    """real Sender + real ed25519 signer on a real agent bus -> Trace_Sender.tla"""
+    trace_files_stage(ctx, "sender", "sender", ctx.pick(8, 16), module="Trace_Sender", cfg=SIMPLE_TRACE_CFG)
+
+
+mc_sender = mc_stage("Sender", """SPECIFICATION FairSpec
+CONSTANTS
+  Batchers = {b1, b2, b3}
+  BatchSize = 2
+  MaxSnaps = @MaxSnaps@
+INVARIANT BatchBound
+INVARIANT ExactlyOnce
+INVARIANT AllSigned
+PROPERTY EventuallyPublished
+CHECK_DEADLOCK FALSE
+""", quick={"MaxSnaps": 5}, thorough={"MaxSnaps": 7}, timeout=6000)
+
+
 def adversary_tv_stage(ctx):
     """Altered / recombined / forged answers -> real JSON decoder + real verifier -> Trace_Balloon.tla"""
     trace_files_stage(ctx, "adversary", "adv", ctx.pick(8, 16))
@@ -382,6 +400,12 @@ PLANS = {
                 "{0, cur, cur+1, 2^63, 2^64-1, -1, 1.5, 2^64}, digest lengths {0,1,3,4,31,32,33,64}, start>end, backupID missing/invalid/unknown) fired at "
                 "the real handlers over a real single-node RaftNode in a child process; after each request the version is read; at the end a "
                 "liveness probe, a restart (log replay) and a second probe; distinct = (method, path, shape)"),
+    "C17": plan("model_checking", [mc_sender, sender_tv_stage],
+                "MC: Sender.tla with 3 batchers, BatchSize 2, up to MaxSnaps snapshots, every interleaving of arrivals, takes and interval ticks "
+                "(BatchBound, ExactlyOnce, AllSigned; liveness EventuallyPublished under weak fairness), exhaustive. TV: the real Sender (1-4 "
+                "batchers, batch size 1-5, real ed25519) with seeded arrival patterns (bursts at k*BatchSize+-1, singles, gaps around the flush "
+                "interval, trickles); every produced snapshot and published batch validated; sampled signed snapshots are modified in every field "
+                "and in each of the 512 signature bits and re-verified; distinct = (batch composition)"),
     "C20": plan("model_checking", [mc_clienttopo, clienttopo_tv_stage, clientcalls_tv_stage],
                 "MC: ClientTopology.tla over urls {a,b,c}: every update (any primary incl. none, any list of <= 3 secondaries), every dead/alive mark, every "
                 "selection with each of the 5 read preferences, revive on/off, all operation sequences up to MaxOps (Safe + Fair), exhaustive. TV 1: seeded "
